@@ -205,6 +205,7 @@ class Shape:
         self.stack = []
         self.cur_fn = None
         self.rets = [[]]
+        self.overrides = {}    # hid -> value: pins a binding (e.g. the instruction id a condition helper matches on)
 
     # ------------------------------------------------------------------ bookkeeping
     def key(self, tag="v"):
@@ -232,11 +233,11 @@ class Shape:
         return v
 
     # ------------------------------------------------------------------ entry points
-    def run(self, defpath, args=None):
+    def run(self, defpath, args=None, assume=None):
         body = self.db.hir[defpath]
         self.h = Handler(defpath)
         self.ctx = ()
-        self.assume = {}
+        self.assume = dict(assume or {})
         self.depth = 0
         self.stack = [defpath]
         self.act_counter += 1
@@ -281,6 +282,8 @@ class Shape:
     def bind(self, pat, v, env):
         k = pat.get("k")
         if k == "Bind":
+            if pat["hid"] in self.overrides:
+                v = self.overrides[pat["hid"]]
             env[pat["hid"]] = v
             if "sub" in pat:
                 self.bind(pat["sub"], v, env)
@@ -374,6 +377,8 @@ class Shape:
             return ("int", -v[1], orig(v))
         if n["op"] == "Deref":
             return v
+        if n["op"] == "Not" and isinstance(v, tuple) and v[0] == "int" and isinstance(v[1], int):
+            return ("int", ~v[1], orig(v))      # two's complement of unbounded width; consumers reduce modulo the IL width
         return UNK
 
     def ev_Binary(self, n, env, body):
@@ -428,6 +433,11 @@ class Shape:
             if op == "And":
                 return b if a[1] else ("bool", False)
             return ("bool", True) if a[1] else b
+        if op in ("Eq", "Ne") and isinstance(a, tuple) and isinstance(b, tuple):
+            if a[0] == "obj" and ("obj", a[1]) in self.assume:
+                a = ("path", self.assume[("obj", a[1])])
+            if b[0] == "obj" and ("obj", b[1]) in self.assume:
+                b = ("path", self.assume[("obj", b[1])])
         if op in ("Eq", "Ne") and isinstance(a, tuple) and isinstance(b, tuple) and a[0] == "path" and b[0] == "path":
             return ("bool", (a[1] == b[1]) == (op == "Eq"))
         if op in ("Eq", "Ne") and isinstance(a, tuple) and isinstance(b, tuple) and a[0] == "str" and b[0] == "str" \
@@ -447,6 +457,13 @@ class Shape:
             return ("int", v, "G") if isinstance(v, int) else ("str", v) if n["name"] == "name" else ("path", v)
         if isinstance(b, tuple) and b[0] == "obj":
             return ("obj", "%s.%s" % (b[1], n["name"]))
+        if isinstance(b, tuple) and b[0] == "reg" and b[1] == "x86" and b[2]:
+            vals = {r[n["name"]] for r in b[2].values() if r and n["name"] in r}
+            if len(vals) == 1:
+                v = vals.pop()
+                return ("int", v, "G") if isinstance(v, int) else ("str", v) if n["name"] == "name" else ("path", v)
+            if n["name"] == "bits":
+                return ("int", self.x86_bits(b), "G")
         return UNK
 
     def ev_Index(self, n, env, body):
@@ -541,6 +558,15 @@ class Shape:
             return ("never",)
         if all(v == vals[0] for v in vals):
             return vals[0]
+        if all(isinstance(v, tuple) and v[0] == "sc" for v in vals) and all(isinstance(v[1], (str, tuple)) and v[1] != "temp" for v in vals):
+            names = []
+            for v in vals:
+                for nm in (v[1] if isinstance(v[1], tuple) else (v[1],)):
+                    if nm not in names:
+                        names.append(nm)
+            ws = {wnorm(v[2], self.assume) for v in vals}
+            w = ws.pop() if len(ws) == 1 else ("sym", "mode.bits") if ws == {32, 64} else ("bits", self.key("join"))
+            return ("sc", tuple(sorted(names)), w, "G" if all(orig(v) == "G" for v in vals) else None)
         if all(is_il(v) or (isinstance(v, tuple) and v[0] in ("sc", "k")) for v in vals):
             ws = [width_of(v) for v in vals]
             # the alternatives stay visible below a uniquely named choice node (for read sets); its identity is fresh
@@ -562,7 +588,7 @@ class Shape:
                     if i not in ids:
                         ids.append(i)
             same_row = all(v[2] == vals[0][2] for v in vals)
-            if len(ids) <= 6 and all(":" in i for i in ids):
+            if len(ids) <= 6 and all(":" in i or i.startswith("X86_REG_") for i in ids):
                 return ("reg", vals[0][1], vals[0][2] if same_row else None, "|".join(ids))
             return ("reg", vals[0][1], None, self.key("reg"))
         if all(isinstance(v, tuple) and v[0] == "tuple" for v in vals) and len({len(v[1]) for v in vals}) == 1:
@@ -634,6 +660,11 @@ class Shape:
         if n.get("src") == "For":
             return self.ev_for(n, env, body)
         sv = self.ev(n["scrut"], env, body)
+        # a decoder field already matched on this path keeps the value it was matched to
+        sv_obj = sv[1] if isinstance(sv, tuple) and sv[0] == "obj" and "(" in str(sv[1]) else None
+        if sv_obj is not None and ("obj", sv_obj) in self.assume:
+            sv = ("path", self.assume[("obj", sv_obj)])
+            sv_obj = None
         # known scrutinee: select the arm
         arms = n["arms"]
         sel = None
@@ -668,7 +699,7 @@ class Shape:
         lab = "match@%s" % n.get("l")
         for i, a in enumerate(arms):
             e1 = dict(env)
-            structured = isinstance(sv, tuple) and sv[0] in ("obj", "ctor") and not str(sv[1]).startswith("ctor:")
+            structured = isinstance(sv, tuple) and (sv[0] == "tuple" or (sv[0] in ("obj", "ctor") and not str(sv[1]).startswith("ctor:")))
             self.bind(a["pat"], sv if self.transparent(a["pat"]) or structured else UNK, e1)
             saved_assume = dict(self.assume)
             # width refinement: `match x.bits() { 16 => .. }`
@@ -682,6 +713,11 @@ class Shape:
                 if len(names) == 1 and next(iter(names)) in relop:
                     self.assume = dict(self.assume)
                     self.assume["__rel__"] = tuple(self.assume.get("__rel__", ())) + ((relop[next(iter(names))], sv[1], sv[2]),)
+            if sv_obj is not None and a["pat"].get("k") == "Path":
+                d_ = a["pat"]["path"].get("ctor_of") or a["pat"]["path"].get("def")
+                if d_:
+                    self.assume = dict(self.assume)
+                    self.assume[("obj", sv_obj)] = d_
             if "guard" in a:
                 self.ev(a["guard"], e1, body)
             v, ab = self.branch("%s:%d" % (lab, i), lambda: self.ev(a["body"], e1, body))
@@ -1058,7 +1094,7 @@ class Shape:
         if name == "assign" and len(args) == 3:
             dst, src = args[1], to_expr(args[2])
             dw = width_of(dst)
-            self.oblige_eq("assign", dw, src[1], n, "assignment %s" % (dst[1] if isinstance(dst, tuple) and dst[0] == "sc" else "?"),
+            self.oblige_eq("assign", dw, src[1], n, "assignment %s" % ((dst[1],) if isinstance(dst, tuple) and dst[0] == "sc" else "?"),
                            orig(dst), orig(src))
             self.h.ops.append({"kind": "Assign", "block": bid, "ctx": self.ctx, "line": n.get("l"), "fn": self.cur_fn,
                                "dst": dst[1] if isinstance(dst, tuple) and dst[0] == "sc" else None, "dw": dw, "src": src,
@@ -1150,9 +1186,14 @@ class Shape:
             rid = args[-1]
             if isinstance(rid, tuple) and rid[0] == "path":
                 k = last_seg(rid[1])
-                rows = {m: self.x86rows[m].get(k) for m in ("X86", "Amd64")}
+                modes = ("X86", "Amd64")
+                if len(args) > 1 and isinstance(args[0], tuple) and args[0][0] == "path" and last_seg(args[0][1]) in modes:
+                    modes = (last_seg(args[0][1]),)
+                rows = {m: self.x86rows[m].get(k) for m in modes}
                 if any(rows.values()):
                     return ("reg", "x86", rows, k)
+            if isinstance(rid, tuple) and rid[0] == "obj" and ("()" in rid[1] or "param" in rid[1]):
+                return ("reg", "x86", None, "x86reg:" + rid[1])
             return ("reg", "x86", None, self.key("x86reg"))
         if d.startswith("translator::x86::x86register::X86Register::") and args and isinstance(args[0], tuple) and args[0][0] == "reg":
             reg = args[0]
@@ -1183,12 +1224,11 @@ class Shape:
                 fw = self.x86_bits(("reg", "x86", {m: self.x86rows[m].get(last_seg(r["full_reg"])) for m, r in rows.items() if r} if rows else None, "f"))
                 self.h.ops.append({"kind": "Assign", "block": blk[1] if isinstance(blk, tuple) and blk[0] == "block" else "?",
                                    "ctx": self.ctx, "line": n.get("l"), "fn": self.cur_fn, "dst": tuple(sorted(self.x86_full_names(reg))) or None,
-                                   "dw": fw, "src": opaque(fw, "regset"), "via": "X86Register::set"})
+                                   "dw": fw, "src": v, "via": "X86Register::set", "reg": str(reg[3]),
+                                   "dst_id": None if rows else str(reg[3])[5:] if str(reg[3]).startswith("full:") else str(reg[3])})
                 return ("unit",)
         if d in ("translator::x86::mode::Mode::bits",):
             return ("int", ("sym", "mode.bits"), "G")
-        if d in ("translator::x86::mode::Mode::sp", "translator::x86::mode::Mode::bp", "translator::x86::mode::Mode::ip"):
-            return ("reg", "x86", None, last_seg(d))
         # ---- mips / ppc
         for arch in ("mips", "ppc"):
             pre = "translator::%s::semantics::" % arch
@@ -1304,7 +1344,7 @@ def show_e(e, depth=0):
     if s[0] == "const":
         return "%s:%s" % ("?" if s[1] is None else hex(s[1]), show_w(w))
     if s[0] == "scalar":
-        return "%s:%s" % (s[1] or "?", show_w(w))
+        return "%s:%s" % ("|".join(s[1]) if isinstance(s[1], tuple) else s[1] or "?", show_w(w))
     if s[0] == "op" and s[1].startswith("join#"):
         return "<%s:%s>" % (s[1], show_w(w))
     if s[0] == "op" and depth < 4:
